@@ -84,6 +84,9 @@ class Walker:
         from scenic.core.lazy_eval import isLazy
         if not isinstance(x, Samplable) or not isLazy(x):
             if isinstance(x, Samplable):
+                from scenic.core.object_types import Constructible
+                if isinstance(x, Constructible) and not x._dependencies:
+                    return self.add(["B"], [], "B")       # object without random properties: nothing to draw
                 raise WalkError(f"non-lazy samplable {type(x).__name__}")
             return self.add(["C"] + const_tokens(x), [], "const")
         if id(x) in self.ids:
